@@ -116,7 +116,11 @@ func Verif_C09_verify_decision() {
 	verifInstallTLSModel(m)
 	raw := verifAnyPresentation(m)
 	m.verifyErr = verifapi.Bool()
-	switch verifapi.Choose(5) {
+	switch verifapi.Choose(7) {
+	case 5: // the expected name in another letter case is another node
+		m.names = []string{"EX"}
+	case 6:
+		m.names = []string{"ot", "Ex"}
 	case 0:
 		m.namesErr = true
 	case 1:
